@@ -517,7 +517,7 @@ End P3.
    observation "CRASH" that no model output matches).  Supporting evidence only: the tie of C03 is the translator. *)
 Definition tsan_run (ops : list (list Z)) : list (list Z) :=
   map (fun op => match op with
-                 | [s; n] => if ((1 <=? s) && (s <=? 14) && (0 <=? n) && (n <=? 100000))%Z then [0%Z] else [(-1)%Z]
+                 | [s; n] => if ((1 <=? s) && (s <=? 17) && (0 <=? n) && (n <=? 100000))%Z then [0%Z] else [(-1)%Z]
                  | _ => [(-1)%Z] end) ops.
 Definition tsan_oracle (ops obs : list (list Z)) : bool :=
   (length ops =? length obs) &&
